@@ -209,3 +209,22 @@ Theorem generated_filter_tables_wrappers_ed :
   ltac:(let t := type of filter_tables_rows_end_to_end_ed in exact t).
 Proof. exact filter_tables_rows_end_to_end_ed. Qed.
 Print Assumptions generated_filter_tables_wrappers_ed.
+
+(* ==== the property stated DIRECTLY ABOUT THE CODE: the function regenerated from the Python source on this
+   run (Gen/WrapperGen.v, Gen/FilterWrapperGen.v, Gen/MatcherGen.v), applied to any well-formed frames,
+   returns a frame with header header_spec whose rows, read at key level (kview: left key, right key,
+   score), satisfy complete_spec /\ sound_spec /\ missing_spec /\ empty_spec (Spec/JoinSpec.v, MetaSpec.v)
+   -- composition of `generated code refines api_join` with `api_join satisfies the specs` *)
+From SSJ Require Import CodeLevelBase CodeLevelJoins CodeLevelJoins2 CodeLevelFilters CodeLevelMatcher CodeLevelTight.
+Theorem C04_code_filter_tables_JCD :
+  ltac:(let t := type of C04_code_filter_tables_jcd in exact t).
+Proof. exact C04_code_filter_tables_jcd. Qed.
+Print Assumptions C04_code_filter_tables_JCD.
+Theorem C04_code_filter_tables_OVERLAP :
+  ltac:(let t := type of C04_code_filter_tables_overlap in exact t).
+Proof. exact C04_code_filter_tables_overlap. Qed.
+Print Assumptions C04_code_filter_tables_OVERLAP.
+Theorem C04_code_filter_tables_ED :
+  ltac:(let t := type of C04_code_filter_tables_edit_distance in exact t).
+Proof. exact C04_code_filter_tables_edit_distance. Qed.
+Print Assumptions C04_code_filter_tables_ED.
